@@ -164,8 +164,13 @@ class ExcelCompiler:
             if self.cycles:
                 def _eval(cell, cse_array_address=None):
                     cell.start_calcs()
-                    return eval_ctx(
-                        cell.formula, cse_array_address=cse_array_address)
+                    try:
+                        return eval_ctx(
+                            cell.formula, cse_array_address=cse_array_address)
+                    except Exception:
+                        # a failed cell is no longer a work in progress
+                        cell.wip = False
+                        raise
 
             else:
                 def _eval(cell, cse_array_address=None):
